@@ -125,6 +125,8 @@ def _len(I, args, kwargs):
         return SInt(z3.Length(v.t))
     if isinstance(v, _Tagged) and v.tag == "list":
         return SInt(z3.Length(I.Z.acc["items"](v.t)))
+    if isinstance(v, SSeq):
+        return SInt(z3.Length(v.base))
     if isinstance(v, (list, tuple, dict, set, frozenset)):
         return len(v)
     if isinstance(v, SOpaque) and hasattr(v, "length"):
@@ -409,6 +411,47 @@ def uuid_str(I, v):
     t = I.to_str_term(v.fields["__text__"])
     I.fact(z3.Implies(D.canon_uuid(t), D.uuid_str(t) == t))
     return SStr(D.uuid_str(t))
+
+
+def _install_repo_names():
+    """PythonIdentifier / ClassName are used by their Engine-A contract: a deterministic function of the arguments whose
+    result is an identifier (C09); Engine B only needs determinism."""
+    from openapi_python_client import utils
+    S, B = z3.StringSort(), z3.BoolSort()
+    pyident = z3.Function("PythonIdentifier", S, S, B, S)
+    clsname = z3.Function("ClassName", S, S, S)
+
+    @model(utils.PythonIdentifier, "utils.PythonIdentifier(value, prefix, skip_snake_case): deterministic (contract: C09, Engine A)")
+    def _pi(I, args, kwargs):
+        value = args[0] if args else kwargs["value"]
+        prefix = args[1] if len(args) > 1 else kwargs["prefix"]
+        skip = args[2] if len(args) > 2 else kwargs.get("skip_snake_case", False)
+        skip_t = skip.t if isinstance(skip, SBool) else z3.BoolVal(bool(skip))
+        return SStr(pyident(I.to_str_term(I.py_str(value)), I.to_str_term(I.py_str(prefix)), skip_t))
+
+    @model(utils.ClassName, "utils.ClassName(value, prefix): deterministic (contract: C09, Engine A)")
+    def _cn(I, args, kwargs):
+        value = args[0] if args else kwargs["value"]
+        prefix = args[1] if len(args) > 1 else kwargs["prefix"]
+        return SStr(clsname(I.to_str_term(I.py_str(value)), I.to_str_term(I.py_str(prefix))))
+
+
+_install_repo_names()
+
+
+def _install_typer():
+    try:
+        import typer
+        import pprint
+    except ImportError:  # pragma: no cover
+        return
+    for f in (typer.secho, typer.echo):
+        model(f, f"typer.{f.__name__}: prints, no effect on the program state")(lambda I, a, k: None)
+    model(typer.style, "typer.style: returns a string")(lambda I, a, k: SStr(I.fresh("styled", z3.StringSort())))
+    model(pprint.pformat, "pprint.pformat: returns a string")(lambda I, a, k: SStr(I.fresh("pformat", z3.StringSort())))
+
+
+_install_typer()
 
 
 def _install_http():
@@ -721,6 +764,9 @@ def call_method(I, recv, name, args, kwargs):
             return None
         if name == "update":
             for a in args:
+                if isinstance(a, SOpaque) and a.cls is set:
+                    recv.__dict__.setdefault("absorbed", []).append(a)     # all elements of a set of unknown content
+                    continue
                 recv.items.update(I.hashable(x) for x in I.iterate(a))
             return None
         if name == "copy":
